@@ -70,9 +70,10 @@ def top_reduction_kinds(recipe):
     return ks
 
 
-def build(env, recipe, params_as_constants=False):
+def build(env, recipe, params_as_constants=False, touch=False):
     """(BuildAlg, object) or raises"""
     b = BuildAlg(env, params_as_constants=params_as_constants)
+    b.touch = touch
     with quiet():
         obj = b.ev(recipe)
     return b, obj
